@@ -347,18 +347,21 @@ def simdKind (probe : Nat) (col : List Value) : Option Bool :=
 def i64Max : Int := 9223372036854775807
 def i64Min : Int := -9223372036854775808
 
-/-- `simd_aggregate_i64` for SUM/AVG/MIN/MAX over the selected cells: NULLs skipped, a
-non-integer cell is an error; MIN/MAX start from i64::MAX / i64::MIN -/
+/-- one iteration of the `simd_aggregate_i64` loop on a selected cell: NULLs skipped, a
+non-integer cell is an error; state = (sum, count, min, max) -/
+def simdStep (st : Except Err (Int × Nat × Int × Int)) (v : Value) : Except Err (Int × Nat × Int × Int) :=
+  match st with
+  | .error e => .error e
+  | .ok (s, n, mn, mx) =>
+    match v with
+    | .null => .ok (s, n, mn, mx)
+    | .int i => .ok (s + i, n + 1, (if i < mn then i else mn), (if mx < i then i else mx))
+    | _ => .error .unsupported
+
+/-- `simd_aggregate_i64` for SUM/AVG/MIN/MAX over the selected cells; MIN/MAX start from
+i64::MAX / i64::MIN -/
 def simdI64 (f : AggFn) (sel : List Value) : Except Err Res :=
-  let step (st : Except Err (Int × Nat × Int × Int)) (v : Value) : Except Err (Int × Nat × Int × Int) :=
-    match st with
-    | .error e => .error e
-    | .ok (s, n, mn, mx) =>
-      match v with
-      | .null => .ok (s, n, mn, mx)
-      | .int i => .ok (s + i, n + 1, (if i < mn then i else mn), (if mx < i then i else mx))
-      | _ => .error .unsupported
-  match sel.foldl step (.ok (0, 0, i64Max, i64Min)) with
+  match sel.foldl simdStep (.ok (0, 0, i64Max, i64Min)) with
   | .error e => .error e
   | .ok (s, n, mn, mx) =>
     if n = 0 then .ok (match f with | .count => .val (.int 0) | _ => .null)
@@ -372,37 +375,38 @@ def simdI64 (f : AggFn) (sel : List Value) : Except Err Res :=
 /-- `compare_for_min_max(a, b)`: a < b -/
 def lessForMinMax (a b : Value) : Bool := cmpSql a b == .lt
 
+/-- `compute_sum` loop body: NULL and non-numeric cells are skipped -/
+def scalarSumStep (st : Int × Nat) (v : Value) : Int × Nat :=
+  match v with
+  | .int i => (st.1 + i, st.2 + 1)
+  | _ => st
+
+/-- `compute_min` loop body -/
+def scalarMinStep (cur : Option Value) (v : Value) : Option Value :=
+  if v.isNull then cur else
+  match cur with
+  | none => some v
+  | some c => if lessForMinMax v c then some v else some c
+
+/-- `compute_max` loop body -/
+def scalarMaxStep (cur : Option Value) (v : Value) : Option Value :=
+  if v.isNull then cur else
+  match cur with
+  | none => some v
+  | some c => if lessForMinMax c v then some v else some c
+
 /-- scalar kernels `compute_sum` / `compute_avg` / `compute_min` / `compute_max` (after the
 repairs: NULLs are not counted, AVG divides by the non-NULL count, every type is compared) -/
 def scalarKernel (f : AggFn) (sel : List Value) : Except Err Res :=
   match f with
-  | .sum | .avg =>
-      let step (st : Except Err (Int × Nat)) (v : Value) : Except Err (Int × Nat) :=
-        match st with
-        | .error e => .error e
-        | .ok (s, n) =>
-          match v with
-          | .int i => .ok (s + i, n + 1)
-          | _ => .ok (s, n)          -- NULL and non-numeric values are skipped
-      match sel.foldl step (.ok (0, 0)) with
-      | .error e => .error e
-      | .ok (s, n) =>
-        if n = 0 then .ok .null
-        else .ok (match f with | .sum => .val (.int s) | _ => .ratio s n)
-  | .min =>
-      let r := sel.foldl (fun (cur : Option Value) v =>
-        if v.isNull then cur else
-        match cur with
-        | none => some v
-        | some c => if lessForMinMax v c then some v else some c) none
-      .ok (match r with | some x => .val x | none => .null)
-  | .max =>
-      let r := sel.foldl (fun (cur : Option Value) v =>
-        if v.isNull then cur else
-        match cur with
-        | none => some v
-        | some c => if lessForMinMax c v then some v else some c) none
-      .ok (match r with | some x => .val x | none => .null)
+  | .sum =>
+      let st := sel.foldl scalarSumStep (0, 0)
+      .ok (if st.2 = 0 then .null else .val (.int st.1))
+  | .avg =>
+      let st := sel.foldl scalarSumStep (0, 0)
+      .ok (if st.2 = 0 then .null else .ratio st.1 st.2)
+  | .min => .ok (match sel.foldl scalarMinStep none with | some x => .val x | none => .null)
+  | .max => .ok (match sel.foldl scalarMaxStep none with | some x => .val x | none => .null)
   | .count => .ok (.val (.int sel.length))
 
 /-- `compute_expression_aggregate(Count)` used for COUNT(column): non-NULL results -/
